@@ -287,6 +287,17 @@ func New(r *rand.Rand, cfg Config, st *Stats) (*Engine, error) {
 		for i := 0; i < 1+r.Intn(4); i++ {
 			e.directAdd()
 		}
+		if r.Intn(30) == 0 {
+			// a crowded agent: listings of more than 100 identities (replies beyond 16 KiB)
+			n := 100 + r.Intn(80)
+			for i := 0; i < n; i++ {
+				k := gen.FreshKey(r)
+				e.Ag.Keyring.Add(agent.AddedKey{PrivateKey: k.Priv, Comment: "crowd-" + strings.Repeat("x", r.Intn(120))})
+			}
+			if st != nil {
+				st.Ops["rig-with-crowded-agent"]++
+			}
+		}
 	}
 	// the listing order is the caller's to choose: one rig in four brings its own comparison function
 	var comp func(a, b ssh.PublicKey) bool
